@@ -545,6 +545,8 @@ def run_machine_keyi(spec) -> Result:
     jobs = []
     for _ in range(n):
         main = r.choice(list(c12.MAINS))
+        # (no handler body reads KIL here: a KIL read and a keyboard scan inside ONE step cannot be ordered from step-boundary
+        #  observations - tried and withdrawn, see DESIGN 6.3)
         body = r.choice(("empty", "clear_isr", "zero", "reenable", "touch", "clear_then_reenable"))
         imr0 = r.choice((0x00, 0x04, 0x80, 0x84, 0x85, 0x8F, 0x8B, 0x81))
         timer = {"enabled": True, "mti": r.choice((1, 2, 3, 5)), "sti": r.choice((0, 3, 8))}
@@ -553,6 +555,11 @@ def run_machine_keyi(spec) -> Result:
         placed = {}
         for _e in range(r.randrange(2, 9)):
             placed[r.randrange(6, nsteps)] = r.choice(keyev) if r.random() < 0.7 else r.choice(c12.EVENTS)
+        if r.random() < 0.4:
+            # the host re-arms the timers in the middle of the run (possibly inside the key handler, after it has emptied
+            # the queue): nothing of the old run may make the key interrupt come back with an empty queue
+            for _e in range(r.randrange(1, 4)):
+                placed[r.randrange(10, nsteps)] = ("treset",)
         jobs.append((scen, c12.build_script(nsteps, placed)))
     tmp = Result()
     for lo in range(0, len(jobs), 60):
